@@ -265,14 +265,27 @@ class Job:
                                'error': 'child died without result '
                                f'(exit {self.proc.exitcode})'}
             self.proc.join()
+            self._release()
             return True
         if not self.proc.is_alive():
             if self.parent_conn.poll(0.2):
                 return self.poll()
             self.result = {'status': 'error',
                            'error': f'child died (exit {self.proc.exitcode})'}
+            self._release()
             return True
         return False
+
+    def _release(self):
+        # thousands of jobs per run: do not keep their pipes open
+        try:
+            self.parent_conn.close()
+        except Exception:
+            pass
+        try:
+            self.proc.close()
+        except Exception:
+            pass
 
 
 def run_jobs(jobs, nproc=None, on_done=None):
